@@ -2,12 +2,31 @@
 from .facts import kids, strip
 
 
-def dominators(fn, post=False):
-    """Immediate-dominator-free dominator sets (small CFGs; iterative)."""
+def dominators(fn, post=False, ignore_abort=False):
+    """Immediate-dominator-free dominator sets (small CFGs; iterative).  With post and ignore_abort, edges into
+    blocks that cannot reach the exit (they end in exit()/abort()) are left out, so that `if (x) { ...; exit(1); }`
+    does not make the rest of the function control-dependent on x."""
     blocks = list(fn.blocks)
     if post:
         start = fn.exit
         pred = {b: fn.succs(b) for b in blocks}
+        if ignore_abort:
+            aborts = set()
+            for b in blocks:
+                for e in fn.blocks[b]['e']:
+                    n = fn.nodes.get(e)
+                    if n is not None and n['k'] == 'CallExpr' and n.get('callee') in ('exit', 'abort', '_exit', '__assert_fail'):
+                        aborts.add(b)
+            live = {fn.exit}
+            rp = fn.preds()
+            st = [fn.exit]
+            while st:
+                x = st.pop()
+                for p_ in rp.get(x, ()):
+                    if p_ not in live and p_ not in aborts:
+                        live.add(p_)
+                        st.append(p_)
+            pred = {b: [x for x in pred[b] if x in live] for b in blocks}
     else:
         start = fn.entry
         pred = fn.preds()
